@@ -14,7 +14,7 @@ LEVEL = "exploration"
 RULE = (
     "Hypothesis draws profiles (closures, free arrays, constants), grid nx,ny in 2..10 (dx != dy), modes below/at/above/default, "
     "1..5 levels in any order incl. surface and top, sign-changing sources with non-zero mean, background, on-grid tower, halo kind. "
-    "Oracles with halo=0 (whole periodic domain returned): mean_xy flux[k] == mean source; sum footprint[k] == 1; mean_xy conc[k] == "
+    "Oracles with halo=0 (whole periodic domain returned): mean_xy flux[k] == mean source; sum footprint[k] == 1 and mean_xy of the concentration footprint == bg - R_k/N; mean_xy conc[k] == "
     "bg - mean(q0)*R_k with R_k the trapezoidal resistance on the given nodes (or any value at least as close to the exact integral "
     "of dz/Kz, where that is known in closed form). Halo: S(q0, halo=H) == crop(S(zero-padded q0 on the enlarged domain, halo=0, "
     "measurement point moved by the pad)), both modes. Non-trivial = non-zero mean source and (>= 2 levels or a halo with px != py); "
@@ -107,7 +107,8 @@ def check_case(case):
     _, conc, flx = sut.S(q0, z, prof, dom, lv, modes=modes, meas_pt=(0.0, 0.0), srf_bg_conc=case["bg"],
                          halo=0.0, precision="double")
     conc, flx = sut.as3d(conc), sut.as3d(flx)
-    _, cfp, ffp = sut.S(q0, z, prof, dom, lv, modes=modes, meas_pt=mp, footprint=True, halo=0.0, precision="double")
+    _, cfp, ffp = sut.S(q0, z, prof, dom, lv, modes=modes, meas_pt=mp, footprint=True, srf_bg_conc=case["bg"], halo=0.0,
+                        precision="double")
     cfp, ffp = sut.as3d(cfp), sut.as3d(ffp)
     dz = np.diff(z)
     Rtrap = np.concatenate([[0.0], np.cumsum(dz * (0.5 / Kz[:-1] + 0.5 / Kz[1:]))])
@@ -118,6 +119,16 @@ def check_case(case):
         s = float(ffp[k].sum())
         if not abs(s - 1.0) <= rel * max(1.0, nx * ny * tol.maxabs(ffp[k])):
             out.bad(f"level {l}: footprint weights sum to {s!r}, not 1")
+        # the concentration footprint is the response to a unit source in one cell (mean flux 1/N) on top of the background
+        gfp = float(cfp[k].mean())
+        wfp = case["bg"] - Rtrap[l] / (nx * ny)
+        fsc = max(tol.maxabs(cfp[k]), abs(case["bg"]), Rtrap[l] / (nx * ny))
+        if not abs(gfp - wfp) <= rel * fsc:
+            Rex = exact_resistance(case["prof"], z, prof, l)
+            Rcode = (case["bg"] - gfp) * nx * ny
+            if not (Rex is not None and abs(Rcode - Rex) <= abs(Rtrap[l] - Rex) + rel * fsc * nx * ny):
+                out.bad(f"level {l}: mean of the concentration footprint {gfp!r} != background - resistance / cells = {wfp!r} "
+                        f"(background {case['bg']}, trapezoidal resistance {Rtrap[l]!r}, {nx * ny} cells)")
         got = float(conc[k].mean())
         want = case["bg"] - qbar * Rtrap[l]
         cscale = max(tol.maxabs(conc[k]), abs(case["bg"]), abs(qbar) * Rtrap[l], cs0)
